@@ -119,8 +119,8 @@ def check_report(out, case, sg, dg_terms, dg_graph, opts, conforms, rg, text):
 def run(ctx, out):
     rng = random.Random(ctx.seed * 67867967 + 6)
     quick = ctx.tier == "quick"
-    cases = c04.gen_cases(rng, 40 if quick else 600, 3)
-    for _ in range(50 if quick else 800):
+    cases = c04.gen_cases(rng, 40 if quick else 160, 3)
+    for _ in range(50 if quick else 200):
         data = shapegen.gen_data(rng)
         gen = shapegen.ShapeGen(rng, data)
         for _ in range(rng.randint(1, 3)):
